@@ -416,6 +416,16 @@ func (tree *ObjectTree) ArgAt(obj *Object, index uint32) *Object {
 	return nil
 }
 
+// methodFlags returns the value of the flags arg of a method object.
+func (tree *ObjectTree) methodFlags(methodObj *Object) (uint64, bool) {
+	flagsObj := tree.ArgAt(methodObj, 1)
+	if flagsObj == nil {
+		return 0, false
+	}
+	flags, ok := flagsObj.value.(uint64)
+	return flags, ok
+}
+
 // PrettyPrint outputs a pretty-printed version of the AML tree to w.
 func (tree *ObjectTree) PrettyPrint(w io.Writer) {
 	if len(tree.objPool) != 0 {
@@ -436,7 +446,10 @@ func (tree *ObjectTree) toString(w io.Writer, padBuf *bytes.Buffer, index uint32
 	}
 
 	if curObj.opcode == pOpMethod {
-		kfmt.Fprintf(w, ", argCount: %d", uint8(tree.ArgAt(curObj, 1).value.(uint64)&0x7))
+		// A method left behind by a failed parse may lack its flags
+		if flags, ok := tree.methodFlags(curObj); ok {
+			kfmt.Fprintf(w, ", argCount: %d", uint8(flags&0x7))
+		}
 	}
 
 	kfmt.Fprintf(w, ", table: %d, index: %d, offset: 0x%x", curObj.tableHandle, curObj.index, curObj.amlOffset)
@@ -444,7 +457,8 @@ func (tree *ObjectTree) toString(w io.Writer, padBuf *bytes.Buffer, index uint32
 
 	if curObj.opcode == pOpIntMethodCall {
 		methodObj := tree.ObjectAt(curObj.value.(uint32))
-		argCount := uint8(tree.ArgAt(methodObj, 1).value.(uint64) & 0x7)
+		flags, _ := tree.methodFlags(methodObj)
+		argCount := uint8(flags & 0x7)
 		kfmt.Fprintf(w, " -> [call to \"%s\", argCount: %d, table: %d, index: %d, offset: 0x%x]", methodObj.name[:], argCount, methodObj.tableHandle, methodObj.index, methodObj.amlOffset)
 	} else if curObj.opcode == pOpIntResolvedNamePath {
 		resolvedObj := tree.ObjectAt(curObj.value.(uint32))
